@@ -32,6 +32,18 @@ import (
 // The configured password travels in clear in the script; the Go side turns it into a real bcrypt
 // hash (MinCost), the model side instantiates the abstract predicate with string equality.
 var c25Exec *shell.Executor
+var c25Live = map[string]*shell.Session{}
+
+func c25CloseLive() {
+	for id, s := range c25Live {
+		s.Close()
+		delete(c25Live, id)
+	}
+}
+
+func c25Counts() string {
+	return fmt.Sprintf(" counter=%d live=%d", c25Exec.ActiveSessions(), len(c25Live))
+}
 var c25HashCache = map[string]string{}
 
 func c25Hash(pw []byte) string {
@@ -96,7 +108,70 @@ func c25Meta(f []string) *shell.ShellMeta {
 func c25Run(line string) string {
 	f := fields(line)
 	switch f[0] {
+	case "reseth":
+		// like reset, but the password hash is given RAW (malformed / foreign bcrypt strings)
+		c25CloseLive()
+		max, _ := strconv.Atoi(f[2])
+		n, _ := strconv.Atoi(f[4])
+		cfg := shell.Config{Enabled: f[1] == "1", MaxSessions: max, PasswordHash: string(unhexTok(f[3]))}
+		for i := 0; i < n; i++ {
+			cfg.Whitelist = append(cfg.Whitelist, string(unhexTok(f[5+i])))
+		}
+		c25Exec = shell.NewExecutor(cfg)
+		return "ok"
+	case "open":
+		// open <id> <pw> <cmd> <args>...: a session that stays alive (started, not closed) until `close <id>`
+		m := c25Meta(f[1:])
+		sess, err := c25Exec.NewSession(context.Background(), m)
+		if err != nil {
+			return c25Classify(err, c25Exec.ActiveSessions()) + c25Counts()
+		}
+		if err := sess.Start(); err != nil { // what handler.go does on a failed start
+			c25Exec.ReleaseSession()
+			return "startfail" + c25Counts()
+		}
+		c25Live[f[1]] = sess
+		return fmt.Sprintf("ok %d", c25Exec.ActiveSessions()) + c25Counts()
+	case "close":
+		if sess, ok := c25Live[f[1]]; ok { // handler.go releaseSession: Close + ReleaseSession, once
+			sess.Close()
+			c25Exec.ReleaseSession()
+			delete(c25Live, f[1])
+		}
+		return "closed" + c25Counts()
+	case "fails", "failp":
+		// a start that FAILS after admission: fails/failp <pw> <cmd> <dir> <args>... (nonexistent binary, bad work_dir)
+		m := &shell.ShellMeta{Password: string(unhexTok(f[1])), Command: string(unhexTok(f[2])), WorkDir: string(unhexTok(f[3]))}
+		for _, a := range f[4:] {
+			m.Args = append(m.Args, string(unhexTok(a)))
+		}
+		if f[0] == "fails" {
+			sess, err := c25Exec.NewSession(context.Background(), m)
+			if err != nil {
+				return c25Classify(err, c25Exec.ActiveSessions()) + c25Counts()
+			}
+			if err := sess.Start(); err != nil {
+				c25Exec.ReleaseSession()
+				shell.VerifC25SessionDiscard(sess)
+				return "startfail" + c25Counts()
+			}
+			sess.Close()
+			c25Exec.ReleaseSession()
+			return "started" + c25Counts()
+		}
+		m.TTY = &shell.TTYSettings{Rows: 24, Cols: 80}
+		ps, err := c25Exec.NewPTYSession(context.Background(), m)
+		if err != nil {
+			if strings.HasPrefix(err.Error(), "failed to start PTY") || strings.HasPrefix(err.Error(), "invalid working directory") {
+				return "startfail" + c25Counts()
+			}
+			return c25Classify(err, c25Exec.ActiveSessions()) + c25Counts()
+		}
+		ps.Close()
+		c25Exec.ReleaseSession()
+		return "started" + c25Counts()
 	case "reset":
+		c25CloseLive()
 		max, _ := strconv.Atoi(f[2])
 		n, _ := strconv.Atoi(f[4])
 		cfg := shell.Config{Enabled: f[1] == "1", MaxSessions: max, PasswordHash: c25Hash(unhexTok(f[3]))}
@@ -477,6 +552,40 @@ func c25Gen(w *bufio.Writer, seed int64, tier string) {
 			}
 			fmt.Fprintln(w)
 		}
+	}
+	// failing starts interleaved with live sessions (fixed script, independent of the seed): after every
+	// op the counter must equal the number of live sessions, and admissions must stop at the limit
+	hx := func(x string) string { return hexTok([]byte(x)) }
+	for _, max := range []int{3, 2, 0} {
+		fmt.Fprintf(w, "reset 1 %d - 2 %s %s\n", max, hx("sleep"), hx("verif-no-such-binary"))
+		fmt.Fprintf(w, "open a - %s %s\n", hx("sleep"), hx("30"))
+		fmt.Fprintf(w, "open b - %s %s\n", hx("sleep"), hx("30"))
+		fmt.Fprintf(w, "failp - %s -\n", hx("verif-no-such-binary"))
+		fmt.Fprintf(w, "failp - %s %s %s\n", hx("sleep"), hx("/verif-no-such-dir"), hx("30"))
+		fmt.Fprintf(w, "fails - %s -\n", hx("verif-no-such-binary"))
+		fmt.Fprintf(w, "fails - %s %s %s\n", hx("sleep"), hx("/verif-no-such-dir"), hx("30"))
+		fmt.Fprintf(w, "failp - %s %s\n", hx("verif-no-such-binary"), hx("/tmp"))
+		fmt.Fprintf(w, "open c - %s %s\n", hx("sleep"), hx("30"))
+		fmt.Fprintf(w, "open d - %s %s\n", hx("sleep"), hx("30"))
+		fmt.Fprintf(w, "open e - %s %s\n", hx("sleep"), hx("30"))
+		fmt.Fprintf(w, "close a\n")
+		fmt.Fprintf(w, "failp - %s -\n", hx("verif-no-such-binary"))
+		fmt.Fprintf(w, "open f - %s %s\n", hx("sleep"), hx("30"))
+		fmt.Fprintf(w, "open g - %s %s\n", hx("sleep"), hx("30"))
+		fmt.Fprintf(w, "close b\nclose c\nclose d\nclose e\nclose f\nclose g\n")
+		fmt.Fprintf(w, "admit - %s\n", hx("sleep"))
+	}
+	// a configured password hash that is not a well-formed bcrypt string (or is one for another password)
+	// admits nothing, whatever is presented (fixed script)
+	foreign, _ := bcrypt.GenerateFromPassword([]byte("another-password"), bcrypt.MinCost)
+	badHashes := []string{"x", "secret", "$2a$", "$1$abcdefgh$abcdefghijklmnopqrstuv", "$2a$99$" + strings.Repeat("a", 53), "$2a$04$" + strings.Repeat("!", 53),
+		"$2a$04$" + strings.Repeat("a", 20), "$9z$04$" + strings.Repeat("a", 53), "$2a$4$" + strings.Repeat("a", 53), "$2a$04" + strings.Repeat("a", 54), " ", string(foreign), string(foreign)[:59], string(foreign) + "x"}
+	for _, bh := range badHashes {
+		fmt.Fprintf(w, "reseth 1 0 %s 1 %s\n", hx(bh), hx("echo"))
+		for _, pw := range []string{"", "x", "secret", bh, "another-password!", strings.Repeat("p", 80)} {
+			fmt.Fprintf(w, "admit %s %s\n", hx(pw), hx("echo"))
+		}
+		fmt.Fprintf(w, "argv %s %s %s\n", hx("secret"), hx("echo"), hx("hi"))
 	}
 	// what runs: arguments with leading / trailing white space, CR / LF, tabs, NUL, quotes around
 	// absolute paths and around metacharacters — the process must get exactly the validated vector
